@@ -305,6 +305,10 @@ def cop_shim(sc, fl):
     return d
 
 
+class LaneAbort(Exception):
+    """The lane cannot go on (its daemon does not come up any more); a violation has been recorded."""
+
+
 class Lane:
     def __init__(self, ctx, no, fl, sc, good, loops, hostile, stats):
         self.ctx, self.no, self.fl, self.sc = ctx, no, fl, sc
@@ -331,8 +335,20 @@ class Lane:
             return 0
 
     def start(self):
-        self.ctx.require(self.dm.start(), "could not start a private nano_vmd (asan flavor) in %s: %s"
-                         % (self.dir, open(self.dm.log, "rb").read()[-400:] if os.path.exists(self.dm.log) else ""))
+        if self.dm.start():
+            return
+        # The daemon came up (it announced its socket) but did not survive / answer the very first PING: that is a
+        # daemon failure, not a harness problem.  Anything else (binary missing, socket never appeared) stays inconclusive.
+        tail = self.dm.stderr_text(1500)
+        log = self.san_logs()
+        sig = crash_signature(log) or crash_signature(tail)
+        if "Listening on" in tail and (sig or not self.dm.alive()):
+            self.dm.wait_dead(5.0)
+            _violation(self.ctx, "daemon-died|%s|on-first-ping" % (sig or "no-sanitizer-report|rc=%s" % self.dm.returncode()),
+                       "a freshly started nano_vmd (asan flavor) announced its socket and then died / never answered the first PING "
+                       "(rc=%s)\n%s" % (self.dm.returncode(), (log or tail)[:5000]), {"sanitizer.log": log or tail})
+            raise LaneAbort()
+        self.ctx.require(False, "could not start a private nano_vmd (asan flavor) in %s: %s" % (self.dir, tail[-400:]))
 
     def san_logs(self, consume=True):
         text = ""
@@ -1132,6 +1148,8 @@ def _run(ctx, fl, sc, lanes):
     def guarded(no):
         try:
             lane_fn(no)
+        except LaneAbort:
+            pass
         except BaseException as ex:
             errs.append(ex)
 
@@ -1158,8 +1176,10 @@ def _run(ctx, fl, sc, lanes):
         t.start()
     for t in ths:
         t.join()
-    if errs:
+    if errs and not (ctx.violations and all(isinstance(e, core.Inconclusive) for e in errs)):
         raise errs[0]
+    for e in errs:
+        ctx.note("ignored after recorded violations: %s" % str(e)[:300])
 
     if ctx.violations and (_repo_hash() != repo_hash0 or not all(os.path.exists(b) for b in (fl.nano_vmd, fl.nano_vm, fl.nano_cop))):
         # what was observed cannot be attributed to one definite tree / build: not a verdict
